@@ -170,6 +170,14 @@ func (g *G) SubText(kind string, flags uint, htype int) []byte {
 			f |= FSemiSep
 		}
 		s = g.OptLWS() + g.ParamList(f) + g.WS(1) + g.Continuation()
+	case "uri":
+		s = g.URI(false)
+		switch g.R.Intn(6) {
+		case 0:
+			s += g.R.Pick([]string{";", "?", ":", ";x=", "?h=", ":5060;", ";lr?", "@", ";a@b", "?a:b@c"})
+		case 1:
+			s = g.R.Pick([]string{"sip:", "sips:", "tel:", "SIP:", "sip", "si", "sips", "tel:+1"}) + g.tok(0, 12)
+		}
 	case "skipquoted":
 		q := g.Quoted()
 		s = q[1:] + g.Continuation()
